@@ -361,6 +361,7 @@ func runC03(r *Report) {
 				typed[types.TypeString(ta.AssertedType, nil)] = true
 			}
 		})
+		checkExtractIPBranches(r, "R-C03-5", ex)
 		for _, t := range []string{"*net.TCPAddr", "*net.UDPAddr"} {
 			r.Ob("R-C03-5", ex.Pos(), typed[t], "extractIP takes the IP of "+t+" from the typed address (a textual host:port split keeps an IPv6 zone, so ban/blacklist keys would not match)", "extractIP", "typed-branch:"+t)
 		}
@@ -564,5 +565,42 @@ func checkHandshakeGates(r *Report, rule string, hh *ssa.Function) {
 			o := originSummary(Arg(call, 0))
 			r.Ob(rule, CallPos(call), !strings.Contains(o, "param:req") && strings.Contains(o, "extractIP"), "address given to "+g.callee+": "+o+" (want extractIP(conn.GetRemoteAddr()), never a request field)", "HandleHandshake", "gate-address:"+g.callee)
 		}
+	}
+}
+
+// checkExtractIPBranches: in the typed branches of extractIP the key returned is the address's IP
+// (v.IP.String()), not the whole address (v.String() carries the port: failures of one client would
+// be spread over as many keys as it uses source ports, and blacklist entries would never match).
+func checkExtractIPBranches(r *Report, rule string, ex *ssa.Function) {
+	n := 0
+	for _, ret := range Returns(ex) {
+		var ta *ssa.TypeAssert
+		for _, ft := range Facts(ret.Block()) {
+			if e, ok := ft.Cond.(*ssa.Extract); ok && e.Index == 1 && ft.Pol {
+				if t, ok := e.Tuple.(*ssa.TypeAssert); ok {
+					tn := types.TypeString(t.AssertedType, nil)
+					if tn == "*net.TCPAddr" || tn == "*net.UDPAddr" {
+						ta = t
+					}
+				}
+			}
+		}
+		if ta == nil {
+			continue
+		}
+		n++
+		tn := types.TypeString(ta.AssertedType, nil)
+		isIP := false
+		if c, _ := CallOfValue(RetVal(ret, 0)); c != nil && CalleeOf(c).Name == "String" {
+			if _, fld, base, ok := FieldOf(Recv(c)); ok && fld == "IP" {
+				if e, isE := stripValue(base).(*ssa.Extract); isE && e.Tuple == ssa.Value(ta) {
+					isIP = true
+				}
+			}
+		}
+		r.Ob(rule, ret.Pos(), isIP, "the "+tn+" branch keys the client by its IP (v.IP.String()), not by ip:port", "extractIP", "typed-branch-returns-ip:"+tn)
+	}
+	if n < 2 {
+		r.Fail(rule, ex.Pos(), fmt.Sprintf("only %d typed branches found in extractIP (TCP and UDP confirmed by hand)", n), "extractIP", "typed-branch-returns-ip:floor")
 	}
 }
